@@ -90,6 +90,11 @@ type c07Crash struct {
 func fileKind(p string) string {
 	b := filepath.Base(p)
 	if i := strings.LastIndex(b, "."); i >= 0 {
+		if b[i+1:] == "tmp" {
+			if k := strings.LastIndex(b[:i], "."); k >= 0 {
+				return b[k+1:] // e.g. sfm.tmp, sst.tmp: which file is being replaced matters
+			}
+		}
 		return b[i+1:]
 	}
 	if strings.Contains(p, "pqmr") {
@@ -258,7 +263,8 @@ func c07Recover(c *c07Crash, rep *kernel.Report) (*Fail, error) {
 	allIdx := strings.Join(sortedKeys(indexes), ",")
 	visible := func(stage string) (map[string]bool, *Fail, error) {
 		rs, err := runQueries(w, []Q{{Index: allIdx, Text: "*", Start: T0 - 10, End: T0 + 100000, Size: 1000},
-			{Index: allIdx, Text: "* | stats count", Start: T0 - 10, End: T0 + 100000, Size: 1000}})
+			{Index: allIdx, Text: "* | stats count", Start: T0 - 10, End: T0 + 100000, Size: 1000},
+			{Index: allIdx, Text: "* | stats count(n), sum(n)", Start: T0 - 10, End: T0 + 100000, Size: 1000}})
 		if err != nil {
 			if d, ok := err.(*kernel.Died); ok {
 				return nil, fail("query-died"+stage, d.Exit+" "+d.Frame+"\n"+trunc(d.Stderr, 2000)), nil
@@ -303,6 +309,50 @@ func c07Recover(c *c07Crash, rep *kernel.Report) (*Fail, error) {
 		}
 		if rs[1].Err != "" || len(rs[1].Errors) > 0 {
 			return nil, fail("query-error"+stage, "stats count: "+rs[1].Err+strings.Join(rs[1].Errors, ";")), nil
+		}
+		// the pre-computed segment statistics answer without errors and agree with what the search returns
+		if rs[2].Err != "" || len(rs[2].Errors) > 0 {
+			return nil, fail("stats-error"+stage, "`* | stats count(n), sum(n)` (answered from the segment statistics files): "+rs[2].Err+strings.Join(rs[2].Errors, ";")), nil
+		}
+		wantN, wantSum := int64(0), 0.0
+		for id := range got {
+			if m, ok := c.model[id]; ok {
+				if vs, has := m.Cols["n"]; has && (vs[0].Kind == "int" || vs[0].Kind == "float") {
+					wantN++
+					wantSum += vs[0].Float()
+				}
+			} else if id == "enew" {
+				wantN, wantSum = -1, 0 // the extra event of the continuation stage has its own n: not compared
+				break
+			}
+		}
+		if wantN >= 0 && len(rs[2].Measure) == 1 {
+			gotN, _ := ObsInt(rs[2].Measure[0].M["count(n)"])
+			gotSum, _ := ObsFloat(rs[2].Measure[0].M["sum(n)"])
+			if gotN != wantN || !approxEq(gotSum, wantSum) {
+				// one explanation has its own class: the search already lists the block of the flush in progress while the
+				// statistics file is still the one of the last completed flush
+				cN, cSum := int64(0), 0.0
+				for id := range got {
+					inflight := false
+					for _, f := range c.InFlight {
+						if f == id {
+							inflight = true
+						}
+					}
+					if m, ok := c.model[id]; ok && !inflight {
+						if vs, has := m.Cols["n"]; has && (vs[0].Kind == "int" || vs[0].Kind == "float") {
+							cN++
+							cSum += vs[0].Float()
+						}
+					}
+				}
+				if stage == "" && gotN == cN && approxEq(gotSum, cSum) {
+					return nil, &Fail{FP: "C07/flush-in-progress-visible-to-search-not-to-stats/" + c.LastOp, What: fmt.Sprintf("history %q crash after %d fs operations (last: %s): the search returns events %v, of which %v belong to the flush in progress; `stats count(n), sum(n)` answers %v, i.e. without them",
+						c.History.Name, c.Cut, c.LastOp, sortedKeys(got), c.InFlight, jstr(rs[2].Measure))}, nil
+				}
+				return nil, fail("stats-disagree-with-search"+stage, fmt.Sprintf("the search returns events %v (count(n)=%d, sum(n)=%v) but `stats count(n), sum(n)` answers %v", sortedKeys(got), wantN, wantSum, jstr(rs[2].Measure))), nil
+			}
 		}
 		return got, nil, nil
 	}
